@@ -122,12 +122,12 @@ impl FromStr for Qtype {
 
     fn from_str(text: &str) -> Result<Self, Self::Err> {
         match Caseless(text) {
-            Caseless("IXFR") => Ok(Self::IXFR),
-            Caseless("AXFR") => Ok(Self::AXFR),
-            Caseless("MAILB") => Ok(Self::MAILB),
-            Caseless("MAILA") => Ok(Self::MAILA),
-            Caseless("ANY") => Ok(Self::ANY),
-            Caseless("*") => Ok(Self::ANY),
+            t if t == Caseless("IXFR") => Ok(Self::IXFR),
+            t if t == Caseless("AXFR") => Ok(Self::AXFR),
+            t if t == Caseless("MAILB") => Ok(Self::MAILB),
+            t if t == Caseless("MAILA") => Ok(Self::MAILA),
+            t if t == Caseless("ANY") => Ok(Self::ANY),
+            t if t == Caseless("*") => Ok(Self::ANY),
             _ => Type::from_str(text).map(Into::into),
         }
     }
@@ -199,9 +199,9 @@ impl FromStr for Qclass {
 
     fn from_str(text: &str) -> Result<Self, Self::Err> {
         match Caseless(text) {
-            Caseless("NONE") => Ok(Self::NONE),
-            Caseless("ANY") => Ok(Self::ANY),
-            Caseless("*") => Ok(Self::ANY),
+            t if t == Caseless("NONE") => Ok(Self::NONE),
+            t if t == Caseless("ANY") => Ok(Self::ANY),
+            t if t == Caseless("*") => Ok(Self::ANY),
             _ => Class::from_str(text).map(Into::into),
         }
     }
